@@ -1,12 +1,15 @@
 """ C16 - no event sequence makes an instance fail internally (cluster part: full fault matrix). """
 import random
 
-from monitors.lib import InternalFailureMonitor, StateGraphMonitor
+from monitors.lib import InternalFailureMonitor, StateGraphMonitor, DynConfMonitor
 from workloads.membership import Run
 
 PROPERTY = 'C16'
 LEVEL = 'exploration'
-RULE = ('three workload families - (c) one real instance fed by scripted peers (L2 fuzz of C13 plus events about '
+RULE = ('four workload families - (d) run-time configuration changes on L3: supvisors.update_numprocs (up, down, lazy, '
+        'invalid values, programs without process_num), enable / disable, supervisor.removeProcessGroup / '
+        'addProcessGroup mixed with start / stop / restart requests, kills and instance restarts, with the faults '
+        'answered compared with the documented ones; (c) one real instance fed by scripted peers (L2 fuzz of C13 plus events about '
         'unknown processes / applications); (a) membership: generated fault scripts; (b) applications: automatic distribution, '
         'user start / stop / restart requests, kills, duplicates, instance loss and restart, targets crashing at the '
         'emission of a start request, immortal processes, 0-25% of PROCESS publications silently dropped - on '
@@ -18,9 +21,15 @@ RULE = ('three workload families - (c) one real instance fed by scripted peers (
 ASSUMPTIONS = ['simulated transport and OS layer (DESIGN.md 2.1) are faithful',
                'statistics collector process and UDP discovery not exercised']
 FLOORS = {'quick': {'events_observed': 5000, 'liveness_evaluations': 50, 'messages_injected': 3000,
-                    'events_about_a_process_known_to_peers_only': 300, 'fuzz_runs_with_pattern_formulas': 40},
+                    'events_about_a_process_known_to_peers_only': 300, 'fuzz_runs_with_pattern_formulas': 40,
+                    'numprocs_requests_served': 60, 'groups_removed': 30, 'groups_added_again': 5,
+                    'programs_disabled_at_run_time': 30, 'configuration_requests_answered': 150,
+                    'groups_added_again_after_a_refused_numprocs_change': 5},
           'thorough': {'events_observed': 50000, 'liveness_evaluations': 500, 'messages_injected': 60000,
-                       'events_about_a_process_known_to_peers_only': 6000, 'fuzz_runs_with_pattern_formulas': 800}}
+                       'events_about_a_process_known_to_peers_only': 6000, 'fuzz_runs_with_pattern_formulas': 800,
+                       'numprocs_requests_served': 1200, 'groups_removed': 700, 'groups_added_again': 120,
+                       'programs_disabled_at_run_time': 700, 'configuration_requests_answered': 3000,
+                       'groups_added_again_after_a_refused_numprocs_change': 100}}
 COUNT = {'quick': 320, 'thorough': 6000}
 BUDGET_S = {'quick': 50, 'thorough': 520}
 
@@ -40,6 +49,21 @@ APPS_KNOBS = {'n_min': 1, 'n_max': 4, 'publisher': True,
               'n_actions': [1, 2, 3, 4, 6, 8], 'early_p': 0.3}
 
 
+# (d) the Supervisor configuration changes at run time: numprocs updated (up, down, lazy, invalid values, programs that
+# do not support it), programs disabled / enabled, groups removed and added again, mixed with the other requests
+DYN_KNOBS = {'n_min': 1, 'n_max': 4, 'publisher': True,
+             'apps': {'n_apps': (1, 3), 'n_progs': (1, 4), 'seq_max': 3, 'allow_wait_exit': False, 'max_numprocs': 3,
+                      'startsecs': (0, 4), 'per_instance_diff': 0.15, 'managed_p': 0.85},
+             'behaviours': ['normal'] * 6 + ['slow_stop', 'stubborn', 'crash_early', 'exit_unexpected'],
+             'actions': ['update_numprocs'] * 4 + ['enable', 'disable', 'disable', 'remove_group', 'remove_group',
+                                                   'add_group', 'add_group', 'refused_numprocs_then_group_added_again',
+                                                   'start_application', 'stop_application',
+                                                   'restart_application', 'start_process', 'stop_process',
+                                                   'restart_sequence', 'kill_process', 'restart', 'burst'],
+             'gaps': [0.0, 0.05, 0.5, 2.0, 5.0, 12.0],
+             'n_actions': [2, 3, 4, 6, 8, 12], 'early_p': 0.1}
+
+
 FUZZ_KNOBS = {'n_steps': [60, 100, 160], 'unknown_process_p': 0.15, 'formula_rules_p': 0.6, 'extra_process_p': 0.25}
 
 
@@ -49,6 +73,7 @@ def plan(tier, seed):
     cases = [{'seed': seed * 1000003 + i, 'family': 'membership' if i % 2 == 0 else 'apps'}
              for i in range(COUNT[tier])]
     cases += [{'seed': seed * 1000003 + 700000 + i, 'family': 'fuzz'} for i in range(COUNT[tier] // 2)]
+    cases += [{'seed': seed * 1000003 + 600000 + i, 'family': 'dynconf'} for i in range(COUNT[tier] // 2)]
     return cases
 
 
@@ -64,6 +89,13 @@ def run_case(case):
         run = AppsRun(case, APPS_KNOBS, [mon])
         violations = run.execute()
         nontrivial = bool(run.actions)
+    elif family == 'dynconf':
+        from workloads.apps import Run as AppsRun
+        run = AppsRun(case, DYN_KNOBS, [mon, DynConfMonitor()])
+        violations = run.execute()
+        nontrivial = any(a['kind'] in ('update_numprocs', 'enable', 'disable', 'remove_group', 'add_group',
+                                       'refused_numprocs_then_group_added_again')
+                         and a.get('res') for a in run.actions)
     else:
         from workloads.isolation_fuzz import FuzzRun
         run = FuzzRun(case, FUZZ_KNOBS, [mon])
